@@ -154,4 +154,34 @@ PROPS = {
         "assumptions": ["fetch_add(SeqCst) on the shared counter is atomic: the schedule theorem quantifies over every interleaving of atomic steps; real memory ordering is exercised under 1..16 threads, not modelled",
                         "serde_json as the view of the identities"],
     },
+    "C01": {
+        "translators": ["t2a", "t2b", "t2c"],
+        "count": {"quick": 150, "thorough": 1500},
+        "rule": "grammar-directed record lists (0..3 MODEL blocks, 1..4 chain runs with returning and blank chain ids and TER, negative / inserted / "
+                "wrapping residue numbers, lower-case names, insertion codes and alternate locations, none / partial / full alternate locations, hetero "
+                "atoms, charges, present and absent element columns, ANISOU, atom serials wrapping past 99999, optional HEADER / REMARK / CRYST1 / ORIGX / "
+                "SCALE / MTRIX) rendered with arbitrary justification inside every field, read at the three levels: the whole result (metadata, hierarchy, "
+                "all atom fields, database references, bonds, diagnostics with level / short description / line) compared with the reader model, and the "
+                "structure and metadata compared with the record-level specification; three single-field corruptions (blank, garbage, truncation of serial, "
+                "residue number, x, y, z, occupancy, B factor) per text at two levels: never accepted.  non-trivial = text with at least two atoms; "
+                "distinct = distinct case line",
+        "assumptions": ["input is ASCII (bytes = characters); SEQRES / DBREF / SEQADV / MODRES / SSBOND are covered by the reader-model correspondence in C05's malformed stream, not by the record specification",
+                        "insertion codes that differ only in case are not generated for one residue number (the reader keys residues by the raw character and stores it upper-cased)",
+                        "a truncated atom line keeps at least 7 characters (a bare 'ATOM  ' is not a record for the reader and is skipped without a diagnostic)",
+                        "the refinement theorem read_pdb (render recs) = denote recs is not proved; the two are compared on every generated text"],
+    },
+    "C05": {
+        "translators": ["t7", "t2a", "t2b", "t2c"],
+        "profiles": ["release", "checked"],
+        "count": {"quick": 300, "thorough": 3000},
+        "rule": "every prefix and every single-column substitution (3 random out of 14 replacement strings: blank, digits, letters, sign, point, 2/3/4-byte "
+                "UTF-8, control, invalid UTF-8, tab; all 14 in the thorough tier), insertion and deletion of a canonical line of each of the 28 supported "
+                "record shapes, alone and appended to a well-formed file; multi-fault mutations (drop / duplicate / swap / truncate / splice / extend lines, "
+                "CRLF) of a well-formed file; hand-picked edge inputs; random read options (2^3) and levels; in the release profile and in a profile with "
+                "overflow checks.  Observed: classified (Ok or Err, no panic), every diagnostic renders, every line-anchored context quotes the line at its "
+                "number; on ASCII input without SEQRES the whole outcome is also compared with the reader model.  non-trivial: every case; distinct = distinct case line",
+        "assumptions": ["termination of the implementation is observed (each call returns), not proved for the compiled code",
+                        "the second context of the 'SEQRES inconsistent residues' diagnostic is a generated line (residues found) and is not treated as a quotation",
+                        "non-ASCII input is explored on the implementation only (the reader model is byte = character)"],
+    },
 }
